@@ -14,9 +14,9 @@ import xml.etree.ElementTree as ET
 
 name, wt, prop = sys.argv[1:4]
 checks = sys.argv[4:] or ["C12", "C14", "C16"]
-VERIF = "/verif"
+VERIF = os.path.dirname(os.path.dirname(os.path.abspath(__file__)))  # the tree whose checks are run (may be a snapshot)
 vs = f"/tmp/vs-{name}"
-out = os.path.join(VERIF, "seeded", name)
+out = os.path.join("/verif", "seeded", name)  # results are always filed in /verif
 os.makedirs(out, exist_ok=True)
 meta = {"name": name, "breaks_property": prop, "ran": []}
 
